@@ -95,3 +95,47 @@ def replay(tool, ask, p, a, units, prods, data=False):
     return {"source": src, "emitted": lines[-1] if lines else None, "emitted_tokens": got, "expected_tokens": exp,
             "mismatch": [] if got == exp else [f"emitted `{lines[-1] if lines else ''}`, the interpreter's syntax for this source form is `{' '.join(exp)}`"],
             "confirmed": got != exp}
+
+
+# ---- productions with a static template (unit assembler, as_*): a fixed source line of the production's form and the line the
+# downstream syntax prescribes for it (written from the interpreter's / loader's grammar, like the contract itself)
+STATIC = {
+    "as_call": ("def tgt { inc ax }\ncall tgt", "code", "call tgt"),
+    "as_int": ("int 0x21", "code", "int 33"),
+    "as_jmps_loops": ("tgt:\njmp tgt", "code", "jmp tgt"),
+    "as_print_mem_len": ("print mem 16:4", "code", "print mem 16 : 4"),
+    "as_db_value": ("a: db -3", "data", "db -3"),
+    "as_db_zeros": ("a: db [4]", "data", "db [ 4 ]"),
+    "as_db_fill": ("a: db [7,2]", "data", "db [ 7 , 2 ]"),
+    "as_db_string": ('a: db "hi"', "data", 'db " hi "'),
+    "as_dw_value": ("a: dw 300", "data", "dw 300"),
+    "as_dw_zeros": ("a: dw [4]", "data", "dw [ 4 ]"),
+    "as_dw_fill": ("a: dw [7,2]", "data", "dw [ 7 , 2 ]"),
+    "as_dw_string": ('a: dw "hi"', "data", 'dw " hi "'),
+    "as_set": ("set 0x20", "data", "set 32"),
+    "as_mem_direct": ("mov al, byte es[300]", "code", "mov al , byte es : [ 300 ]"),
+    "as_mem_indirect": ("mov al, byte ds[si]", "code", "mov al , byte ds : [ si ]"),
+    "as_mem_based": ("mov al, byte ss[bp,-2]", "code", "mov al , byte ss : [ bp , - 2 ]"),
+    "as_mem_indexed": ("mov al, byte es[di,7]", "code", "mov al , byte es : [ di , 7 ]"),
+    "as_mem_based_indexed": ("mov al, byte es[bx,si]", "code", "mov al , byte es : [ bx , si , 0 ]"),
+    "as_string_condition_repeat_opcode_byte": ("cmps byte", "code", "cmps byte"),
+    "as_string_condition_repeat_opcode_word": ("scas word", "code", "scas word"),
+    "as_string_repeat_opcode_byte": ("movs byte", "code", "movs byte"),
+    "as_string_repeat_opcode_word": ("stos word", "code", "stos word"),
+}
+
+
+def replay_static(tool, ask, fn):
+    if fn not in STATIC:
+        return None
+    src, kind, want = STATIC[fn]
+    exp = TOK.findall(want)
+    obs = ask(tool, ["asm " + src.replace("\n", "\\n")])[0]
+    if not isinstance(obs, dict) or not obs.get("ok") or not obs.get(kind):
+        return {"source": src, "observed": obs, "expected_tokens": exp, "confirmed": False,
+                "note": "the sample source of this production's form was not assembled; no concrete failing input"}
+    line = obs[kind][-1]
+    got = TOK.findall(line)
+    return {"source": src, "emitted": line, "emitted_tokens": got, "expected_tokens": exp, "list": kind,
+            "mismatch": [] if got == exp else [f"emitted `{line}`, the downstream syntax for this source form is `{want}`"],
+            "confirmed": got != exp}
